@@ -1,9 +1,11 @@
 (* Props/C13.v -- property C13: the SX126x / SX127x drivers emit the SPI bytes of the datasheet (and hence of Semtech's reference driver,
-   which the correspondence run executes on the same emulated bus).  PARTIAL in Coq: the theorems cover the command / register encodings as
-   functions of the parameters (all legal values); the order of transactions and the read-modify-write plumbing of each operation is the
-   hand-written program in Model/Sx126x.v / Sx127x.v, tied to the driver and to the reference driver by the correspondence run. *)
+   which the correspondence run executes on the same emulated bus).  The theorems cover the command / register encodings as functions of the
+   parameters (all legal values) and, for the SX126x, the ORDER of the transactions of each operation (C13_sx126x_seq_*: the SPI
+   transactions along the success path = the sequence of datasheet commands and workarounds the reference driver issues, for every parameter
+   value and every byte the chip answers to the reads).  For the SX127x the reference driver is compared by register outcome (its access
+   pattern differs legitimately), so only field-level theorems are stated; its programs are tied by the correspondence run. *)
 From Coq Require Import ZArith NArith List Bool.
-From LoraV Require Import Base.Bytes Gen.PhyTables Model.PhyCore Model.Sx126x Model.Sx127x Spec.PhySpec Proofs.PhyBytes Proofs.PhyArith.
+From LoraV Require Import Base.Bytes Gen.PhyTables Model.PhyCore Model.Sx126x Model.Sx127x Spec.PhySpec Proofs.PhyBytes Proofs.PhyArith Proofs.PhySeq.
 Import ListNotations.
 Open Scope N_scope.
 
@@ -39,3 +41,50 @@ Proof. exact sx1276_modem_config_fields. Qed.
 Theorem C13_sx1276_frf_bytes : forall f, f <= 1020000000 ->
   let s := pll_step_127 f in ((s / 65536) mod 256) * 65536 + ((s / 256) mod 256) * 256 + s mod 256 = s.
 Proof. exact sx1276_frf_bytes. Qed.
+
+(* ---- SX126x: order of transactions of each operation = the reference sequence (Proofs/PhySeq.v states the sequences in datasheet terms) *)
+Theorem C13_sx126x_seq_modulation : forall sf bw cr ldro v rest,
+  spi_seq (set_mod_126 sf bw cr ldro) ([v] :: rest) =
+  match ds_SetModulationParams sf bw cr ldro with
+  | Some cmd => [[W cmd]; ds_ReadRegister ds_reg_TxModulation; ds_WriteRegister ds_reg_TxModulation (ds_txmod (bw =? 9) v)]
+  | None => [] end.
+Proof. exact seq_set_modulation_params. Qed.
+Theorem C13_sx126x_seq_packet : forall preamble implicit len crc iq v rest, preamble < 65536 ->
+  spi_seq (set_pkt_126 preamble implicit len crc iq) ([v] :: rest) =
+  [[W (ds_SetPacketParams preamble implicit len crc iq)]; ds_ReadRegister ds_reg_IqPolarity; ds_WriteRegister ds_reg_IqPolarity (ds_iqpol iq v)].
+Proof. exact seq_set_packet_params. Qed.
+Theorem C13_sx126x_seq_channel : forall f reads,
+  spi_seq (set_channel_126 f) reads = match pll_step_126 f with Some s => [[W (ds_SetRfFrequency s)]] | None => [] end.
+Proof. exact seq_set_channel. Qed.
+Theorem C13_sx126x_seq_tx_power : forall g p freq prep v rest duty hp txp,
+  pa_lookup (g_pa_table g) p = Some (duty, hp, txp) ->
+  (g_low_power_pa g = true -> ((15 <=? p)%Z && match freq with Some f => f <? 400000000 | None => false end) = false) ->
+  spi_seq (set_tx_power_126 g p freq prep) ([v] :: rest) =
+  (if g_low_power_pa g then [] else [ds_ReadRegister ds_reg_TxClampCfg; ds_WriteRegister ds_reg_TxClampCfg (N.lor v 0x1E)]) ++
+  [[W (ds_SetPaConfig duty hp (if g_low_power_pa g then 1 else 0))]; [W (ds_SetTxParams txp (if prep then 2 else 4))]].
+Proof. exact seq_set_tx_power. Qed.
+Theorem C13_sx126x_seq_rx : forall g m reads,
+  spi_seq (do_rx_126 g m) reads =
+  let n := match m with RxSingle n => n | _ => 0 end in
+  let '(val, mant, exp) := symb_timeout_126 n in
+  [[W (ds_StopTimerOnPreamble true)]; [W (ds_SetLoRaSymbNumTimeout val)]] ++
+  (if 0 <? n then [ds_WriteRegister ds_reg_SynchTimeout ((exp + mant * 8) mod 256)] else []) ++
+  [ds_WriteRegister ds_reg_RxGain (if g_rx_boost g then 0x96 else 0x94);
+   [W (match m with RxDuty rx sl => ds_SetRxDutyCycle rx sl | RxSingle _ => ds_SetRx 0 | RxContinuous => ds_SetRx 0xFFFFFF end)]].
+Proof. exact seq_rx. Qed.
+Theorem C13_sx126x_seq_cad : forall g sf reads,
+  spi_seq (do_cad_126 g sf) reads =
+  ds_WriteRegister ds_reg_RxGain (if g_rx_boost g then 0x96 else 0x94) ::
+  match ds_sf_code sf with Some s => [[W (ds_SetCadParams 3 ((s + 13) mod 256) 10 0 0)]; [W ds_SetCad]] | None => [] end.
+Proof. exact seq_cad. Qed.
+Theorem C13_sx126x_seq_init : forall g sw reads,
+  spi_seq (init_lora_126 g sw) reads =
+  init_prefix g sw ++
+  spi_seq (add_retention s6_Register_RxGain ;;; add_retention s6_Register_TxModulation) (match g_tcxo g with Some _ => tl reads | None => reads end).
+Proof. exact seq_init. Qed.
+Theorem C13_sx126x_seq_simple : forall reads p m warm,
+  spi_seq do_tx_126 reads = [[W (ds_SetTx 0)]] /\ spi_seq (set_payload_126 p) reads = [[W (ds_WriteBuffer 0); W p]] /\
+  spi_seq (set_irq_126 m) reads = [[W (cmd_irq_126 (irq_mask_126 m))]] /\ spi_seq set_standby_126 reads = [[W ds_SetStandbyRC]] /\
+  spi_seq (set_sleep_126 warm) reads = [[W (ds_SetSleep warm)]].
+Proof. intros. split; [apply seq_tx|]. split; [apply seq_write_payload|]. split; [apply seq_irq|]. split; [apply seq_standby|apply seq_sleep]. Qed.
+
